@@ -183,6 +183,15 @@ def check_function(rep, ex: Explorer, qual: str, role: str):
                 continue
             unknown.append((key, val))
         if unknown:
+            def satbased(k):
+                return isinstance(k, tuple) and bool(k) and (k[0] == "sat" or (k[0] in ("forall", "exists", "not", "and", "or") and "'sat'" in repr(k)))
+            if env["W"] is True and env["T"] is True and all(satbased(k) for k, v in unknown):
+                # positive evidence: with nothing tolerated in extended mode the verdict hangs on satisfiability tests other
+                # than the one joint test of the remaining material counterparts
+                from ..absvals import show_pred
+                rep.violation("PART.terminal", site, "extended terminal verdict", "with no tolerated conditional left the extended verdict is the joint satisfiability of the remaining material counterparts",
+                              extracted="decided by " + "; ".join(show_pred(k)[:120] for k, v in unknown), required="SAT(⋀ material(c) for the remaining c)", function=site)
+                continue
             raise AnalysisError(f"{site}: outcome depends on a predicate the specification does not mention: {unknown[0][0]!r}")
         # terminal query scope
         if kq is not None:
